@@ -6,5 +6,5 @@ CONSTANTS
   Mode = "serial"
 SPECIFICATION Spec
 INVARIANTS FinalOK NoneLeft AtMostOnce DepsFinished NothingRunsAtReturn QuiescentIsClosure
-PROPERTY Terminates
+PROPERTY Terminates FlatRefinement
 CHECK_DEADLOCK FALSE
